@@ -47,6 +47,24 @@ def freeze(x):
     return x
 
 
+def fold(t: Term):
+    """Constant folding of comparisons between constants (needed after unrolling loops over constant collections)."""
+    if isinstance(t, tuple) and t and t[0] == 'cmp' and t[1] in ('==', '!=', 'is', 'isnot') and isinstance(t[2], tuple) and isinstance(t[3], tuple) \
+            and t[2][:1] == ('const',) and t[3][:1] == ('const',):
+        eq = t[2][1] == t[3][1]
+        return ('const', eq if t[1] in ('==', 'is') else not eq)
+    if isinstance(t, tuple) and t and t[0] == 'not' and isinstance(t[1], tuple) and t[1][:1] == ('const',) and isinstance(t[1][1], bool):
+        return ('const', not t[1][1])
+    return t
+
+
+def const_elements(t: Term):
+    """Elements of a constant collection term, in iteration order; None if not constant."""
+    if isinstance(t, tuple) and t and t[0] in ('set', 'seq') and isinstance(t[1], tuple) and all(isinstance(x, tuple) and x[:1] == ('const',) for x in t[1]):
+        return list(t[1])
+    return None
+
+
 class Path:
     def __init__(self, conds=None, env=None, ret=None, returned=False):
         self.conds: List[Tuple[Term, bool]] = list(conds or [])
@@ -55,7 +73,9 @@ class Path:
         self.returned = returned
 
     def fork(self):
-        return Path(self.conds, self.env, self.ret, self.returned)
+        q = Path(self.conds, self.env, self.ret, self.returned)
+        q.broken = getattr(self, 'broken', False)
+        return q
 
     def summary(self):
         return (tuple(self.conds), freeze(self.ret))
@@ -87,8 +107,8 @@ class PyNorm:
 
     def _block(self, stmts, paths: List[Path]) -> List[Path]:
         for s in stmts:
-            live = [p for p in paths if not p.returned]
-            done = [p for p in paths if p.returned]
+            live = [p for p in paths if not p.returned and not getattr(p, 'broken', False)]
+            done = [p for p in paths if p.returned or getattr(p, 'broken', False)]
             if not live:
                 return done
             paths = done + self._stmt(s, live)
@@ -110,10 +130,37 @@ class PyNorm:
                     self._store(t, v, p)
                 out.append(p)
             return out
+        if isinstance(s, ast.For) and isinstance(s.target, ast.Name) and not s.orelse:
+            out = []
+            for p in paths:
+                elems = const_elements(self.term(s.iter, p.env))
+                if elems is None:
+                    raise AnalysisError(f'norm: loop over a non-constant collection in {self.fi.short}: {src(s.iter)[:40]!r}')
+                live = [p]
+                for el in elems:
+                    nxt = []
+                    for q in live:
+                        if q.returned or getattr(q, 'broken', False):
+                            nxt.append(q)
+                            continue
+                        q.env[s.target.id] = el
+                        nxt += self._block(s.body, [q])
+                    live = nxt
+                for q in live:
+                    q.broken = False
+                out += live
+            return out
+        if isinstance(s, ast.Break):
+            for p in paths:
+                p.broken = True
+            return paths
         if isinstance(s, ast.If):
             out = []
             for p in paths:
-                c = self.term(s.test, p.env)
+                c = fold(self.term(s.test, p.env))
+                if isinstance(c, tuple) and c[:1] == ('const',) and isinstance(c[1], bool):
+                    out += self._block(s.body if c[1] else s.orelse, [p]) if (s.body if c[1] else s.orelse) else [p]
+                    continue
                 pt, pf = p.fork(), p.fork()
                 pt.conds.append((c, True))
                 pf.conds.append((c, False))
@@ -352,8 +399,8 @@ class JsNorm:
         i = 0
         while i < len(stmts):
             s = stmts[i]
-            live = [p for p in paths if not p.returned]
-            done = [p for p in paths if p.returned]
+            live = [p for p in paths if not p.returned and not getattr(p, 'broken', False)]
+            done = [p for p in paths if p.returned or getattr(p, 'broken', False)]
             if not live:
                 return done
             # idiom: for (const t of S) { if (X.has(t)) return true; }  return false;
@@ -410,10 +457,39 @@ class JsNorm:
                     self._store(e[2], self.term(e[3], p.env), p)
                 return paths
             raise AnalysisError(f'js norm: unsupported expression statement in {self.name} line {s[2]}')
+        if k == 'break':
+            for p in paths:
+                p.broken = True
+            return paths
+        if k == 'forof' and isinstance(s[1], str):
+            out = []
+            for p in paths:
+                elems = const_elements(self.term(s[2], p.env))
+                if elems is None:
+                    raise AnalysisError(f'js norm: loop over a non-constant collection in {self.name}')
+                live = [p]
+                body = s[3][1] if s[3][0] == 'block' else [s[3]]
+                for el in elems:
+                    nxt = []
+                    for q in live:
+                        if q.returned or getattr(q, 'broken', False):
+                            nxt.append(q)
+                            continue
+                        q.env[s[1]] = el
+                        nxt += self._block(body, [q])
+                    live = nxt
+                for q in live:
+                    q.broken = False
+                out += live
+            return out
         if k == 'if':
             out = []
             for p in paths:
-                c = self.term(s[1], p.env)
+                c = fold(self.term(s[1], p.env))
+                if isinstance(c, tuple) and c[:1] == ('const',) and isinstance(c[1], bool):
+                    br = s[2] if c[1] else s[3]
+                    out += self._stmt(br, [p]) if br is not None else [p]
+                    continue
                 pt, pf = p.fork(), p.fork()
                 pt.conds.append((c, True))
                 pf.conds.append((c, False))
